@@ -115,6 +115,9 @@ def observe_case(spec):
                 with O.budget(20):
                     root = parsers[lx].parse(text)
                     rec['tree'] = c03.tree4(TreeForestTransformer(resolve_ambiguity=False).transform(root))
+                    if c03.expand_count(rec['tree']) > 300:
+                        case['too_ambiguous'] = case.get('too_ambiguous', 0) + 1
+                        rec['skipme'] = True
                     rec['one'] = c03.tree4(TreeForestTransformer(resolve_ambiguity=True).transform(root))
                     rec['isamb'] = bool(root.is_ambiguous)
                     ForestSumVisitor().visit(root)
@@ -126,7 +129,8 @@ def observe_case(spec):
             except (Exception, O.Hang) as ex:
                 rec['out'] = 2
                 rec['exc'] = type(ex).__name__
-            exp.append(rec)
+            if not rec.get('skipme'):
+                exp.append(rec)
         case['inputs'].append({'w': list(w), 'obs': [], 'exp': exp})
     return case
 
